@@ -1,0 +1,6 @@
+//go:build !verif
+
+package lang
+
+// verifStep is a no-op outside verification builds (see verif_hooks.go).
+func (e *Evaluator) verifStep() error { return nil }
